@@ -250,6 +250,8 @@ def check_C05(tier):
     expect_holds(rr, "Reader (joined file)"); c.add_tlc(rr)
     c.add_report(vh_replay("reader", rr.replay_path, "reader-c05"), "FileExecutor / join loader line reading vs Reader.tla (replay)")
     engine_run(c, "long-joined-file", "JoinMenu", lines="LinesJ", maxlines=2, maxfiles=1, joinsets="JoinSetsLong", tdefs=("plain",))
+    # join on a numeric column whose type differs on the two sides (INT = REAL), values around 2^53 included
+    engine_run(c, "numeric-join", "NumJoinMenu", lines="LinesNum", maxlines=3, maxfiles=1, joinsets="JoinSetsNum", tdefs=("numjoin",))
     engine_run(c, "join", "JoinMenu", lines="LinesJ", maxlines=4 if t else 3, maxfiles=1, tdefs=("plain", "knn") if t else ("plain",))
     engine_sim(c, "join", "JoinMenu", lines="LinesJ", maxlines=8, num=1500 if t else 120, modes=("batch",))
     c.rule, c.assumptions, c.exhaustive = ENGINE_RULE, ENGINE_ASSUME, True
@@ -284,6 +286,8 @@ def check_C11(tier):
     engine_run(c, "incr", "CoreMenu", lines="LinesAgg", maxlines=5 if t else 4, maxfiles=1, modes=("incr",), tdefs=("plain", "knn"))
     engine_run(c, "incr-agg", "AggMenu", lines="LinesAgg", maxlines=3, maxfiles=1, modes=("incr",), tdefs=("plain",))
     engine_follow_run(c, "tables", "CoreMenu", lines="LinesAgg", maxlines=4 if t else 3, tdefs=("plain", "knn"), sample=4000 if t else 1200)
+    # line-by-line feeding of a statement with a join (library API: with_executed_joined_table + execute per line)
+    engine_run(c, "incr-join", "JoinMenu", lines="LinesJ", maxlines=3 if t else 2, maxfiles=1, joinsets="JoinSets", modes=("incr",), tdefs=("plain",))
     laws_trace(c, 2 if t else 1, 300 if t else 100)
     engine_sim(c, "incr", "AggMenu", lines="LinesRich", maxlines=10, num=2000 if t else 150, modes=("incr",))
     engine_sim(c, "incr-core", "CoreMenu", lines="Lines4", maxlines=12, num=1000 if t else 80, modes=("incr",))
@@ -547,6 +551,10 @@ def check_C15(tier):
     t = tier == "thorough"
     engine_run(c, "order", "OrderMenu", lines="LinesAgg", maxlines=4 if t else 3, maxfiles=1, tdefs=("plain",),
                invs=["TypeOK", "BatchRefinesSem", "PermLaw", "CombineLaw"], props=())
+    # aggregates over REALs closer than f64::EPSILON / the two zeros / NaN, in both arrival orders (typed comparison in incremental mode)
+    engine_run(c, "real-order", "RealOrderMenu", lines="LinesPick", maxlines=3, maxfiles=1, modes=("incr",), tdefs=("plain",), invs=["TypeOK", "IncrRefinesSem", "PermLaw"], props=())
+    # COUNT(DISTINCT) with up to 10 distinct values and recurrences: long random inputs
+    engine_sim(c, "count-distinct", "DistinctCountMenu", lines="LinesDistinct", maxlines=16, num=4000 if t else 500, modes=("batch",), invs=["TypeOK", "BatchRefinesSem"])
     laws_trace(c, 3 if t else 1, 400 if t else 150)
     engine_sim(c, "order", "OrderMenu", lines="LinesRich", maxlines=8, num=1500 if t else 120, modes=("batch",), invs=["TypeOK", "BatchRefinesSem"])
     c.rule = ENGINE_RULE + (" PermLaw quantifies over all permutations of each enumerated input, CombineLaw over all cut points; the real code is run on every ordering (TLC enumerates all sequences) and, on the "
